@@ -13,6 +13,7 @@
 (*   - decoding the same bytes twice gives equal results (same outcome and  *)
 (*     same rendered result, compared through the hashes h1 / h2);          *)
 (*   - rendering an accepted message as text returns.                       *)
+(*   - the result is a function of the bytes alone (events "ctx").            *)
 (* Which inputs are accepted is deliberately not judged.                    *)
 EXTENDS ModeSFrame, TraceBase
 
@@ -37,11 +38,23 @@ FromBytesOk(ev) ==
                          /\ ev.fb_disp = "ok"
                          /\ ev.fb_dbg = "ok"
 
-Ok(ev) == TryFromOk(ev) /\ FromBytesOk(ev)
+(* Context independence ("decoding the same bytes twice gives equal          *)
+(* results", whatever was decoded in between): event "ctx" records the      *)
+(* result of an input when it was first decoded in the process and its      *)
+(* result when decoded again later, after other inputs (a repeat in the     *)
+(* plan, or the re-decoding of the sampled inputs sorted by message field   *)
+(* and in reverse).  Both must be the same outcome and the same text.       *)
+CtxOk(ev) ==
+  /\ ev.out \in Outcomes /\ ev.fb_out \in Outcomes
+  /\ ev.out = ev.out_first /\ ev.h = ev.h_first
+  /\ ev.fb_out = ev.fb_out_first /\ ev.fb_h = ev.fb_h_first
+
+Ok(ev) == IF ev.e = "ctx" THEN CtxOk(ev) ELSE TryFromOk(ev) /\ FromBytesOk(ev)
 
 (* the first clause that fails, for the report *)
 Clause(ev) ==
-  CASE ev.out \notin Outcomes \/ ev.fb_out \notin Outcomes -> "returns"
+  CASE ev.e = "ctx" -> (IF ev.out \in Outcomes /\ ev.fb_out \in Outcomes THEN "context" ELSE "returns")
+    [] ev.out \notin Outcomes \/ ev.fb_out \notin Outcomes -> "returns"
     [] ev.out2 # ev.out \/ ev.h1 # ev.h2 \/ ev.fb_out2 # ev.fb_out \/ ev.fb_h1 # ev.fb_h2 -> "deterministic"
     [] ev.out = "ok" /\ (ev.len < 1 \/ ev.len # LenFor(DFOfByte(ev.b0))) -> "length"
     [] ev.fb_out = "ok" /\ (ev.len < 1 \/ ev.fb_used # LenFor(DFOfByte(ev.b0)) \/ ev.fb_used > ev.len) -> "length"
